@@ -273,11 +273,16 @@ def _binop(op, a, b):
     raise Unknown("operands do not broadcast")
 
 
+_DIVISORS: list = []  # the sums that were divided by since the list was last cleared (E19.act asks where they vanish)
+
+
 def _div(a: LP, b: LP) -> LP:
     try:
         return a * b.inverse()
     except NotPolynomial:
         # division by a sum: an atom of its own (only normalisation factors are divided by in these constructors)
+        if len(_DIVISORS) < 10000:
+            _DIVISORS.append(b)
         return a * LP.sym(f"1/({b.show()})")
 
 
@@ -3220,7 +3225,17 @@ def rule_action_values(run: Run, prog: Program, part: str = "incidence") -> int:
             return LP.const(_ints[name])
         return sym
 
+    class _BadDivisor(Exception):
+        pass
+
     def judge(label: str, compute, good: str, bad: str, n_: int) -> None:
+        try:
+            return _judge(label, compute, good, bad, n_)
+        except _BadDivisor as ex:
+            run.add("E19.act", ap.short, label, VIOLATION,
+                    f"the composition divides by `{ex}`, which is not a power of the determinants: it vanishes for invertible matrices too (0/0 = nan for every such pair)", loc)
+
+    def _judge(label: str, compute, good: str, bad: str, n_: int) -> None:
         try:
             if compute(mk_sym(True), n_) is False:
                 run.add("E19.act", ap.short, label, VIOLATION, bad + " (already at an integer point)", loc)
@@ -3234,9 +3249,46 @@ def rule_action_values(run: Run, prog: Program, part: str = "incidence") -> int:
         return TensorSym(Table((n_,), {(i,): sym(f"{name}{i}") for i in range(n_)}), 1 if point else 0, 0 if point else 1,
                          {"PointTensor", "Point", "Tensor"} if point else {"SubspaceTensor", "Tensor", "LineTensor" if n_ == 3 else "PlaneTensor"})
 
-    def trans_(sym, n_: int):
-        tm_ = Table.full((n_, n_), lambda idx: sym(f"t{idx[0]}{idx[1]}"))
+    def trans_(sym, n_: int, name: str = "t"):
+        tm_ = Table.full((n_, n_), lambda idx: sym(f"{name}{idx[0]}{idx[1]}"))
         return TransSym(tm_), _det_table(tm_)
+
+    def compose(s_: "TransSym", t_: "TransSym") -> "TransSym":
+        """s * t as the library computes it: TransformationTensor.__apply__ of t, handed s"""
+        tt = prog.find_cls("TransformationTensor")
+        m_ = prog.lookup(tt, "__apply__") if tt else None
+        if m_ is None or prog.body_of(m_) is ap:
+            raise Unknown("TransformationTensor.__apply__ not found")
+        it_ = Interp(prog, None, {})
+        it_.generic = True
+        it_.hooks = {**hooks_for(it_), "from_array": lambda a_, k_: TransSym(a_[-1]) if a_ and isinstance(a_[-1], Table) and len(a_[-1].shape) == 2 else Opaque("from_array")}
+        res_ = it_.run_method(m_, t_, [s_], {})
+        if not isinstance(res_, TransSym) or not isinstance(res_.array, Table):
+            raise Unknown(f"the composition does not return a transformation ({getattr(res_, 'why', type(res_).__name__)[:50]})")
+        return res_
+
+    def c_compose(point: bool):
+        def compute(sym, n_):
+            s_, det_s = trans_(sym, n_, "s")
+            t_, det_t = trans_(sym, n_, "t")
+            x_ = vec_(sym, "p" if point else "h", n_, point)
+            del _DIVISORS[:]
+            st = compose(s_, t_)
+            divisors = list(_DIVISORS)
+            for d_ in divisors:
+                # a divisor may vanish only where one of the matrices is singular: it is then c det S^i det T^j (det is irreducible)
+                mono = next(iter(d_.t))
+                i_ = sum(e_ for s__, e_ in mono if s__.startswith("s")) / n_
+                j_ = sum(e_ for s__, e_ in mono if s__.startswith("t")) / n_
+                ref = det_s.power(int(i_)) * det_t.power(int(j_)) if i_ == int(i_) and j_ == int(j_) and i_ >= 0 and j_ >= 0 else None
+                k0 = next(iter(ref.t)) if ref is not None and ref.t else None
+                c_ = d_.t.get(k0, 0) / ref.t[k0] if k0 is not None else 0
+                if ref is None or not c_ or not (d_ - ref * LP.const(c_)).is_zero():
+                    raise _BadDivisor(d_.show()[:80])
+            left = apply(x_, st)
+            right = apply(apply(x_, t_), s_)
+            return prop(left.array, right.array)
+        return compute
 
     def c_incidence(sym, n_):
         t, det_t = trans_(sym, n_)
@@ -3298,4 +3350,10 @@ def rule_action_values(run: Run, prog: Program, part: str = "incidence") -> int:
                 n_ob += 1
                 judge(label, c_inverse(point), "the matrix of inverse() applied to t*x is a non-zero polynomial multiple of x",
                       "the matrix of inverse() applied to t*x is not a multiple of x: the inverse does not undo the action", n)
+            for label, point in ((f"(s * t) * x and s * (t * x) for a point of {space}", True), (f"(s * t) * x and s * (t * x) for a line of {space}", False)):
+                if n == 4 and not point:
+                    continue  # (the adjugate of a product of two symbolic 4x4 matrices: out of budget)
+                n_ob += 1
+                judge(label, c_compose(point), "both sides are multiples of each other, and the composition divides by nothing that can vanish for invertible matrices",
+                      "(s * t) * x is not a multiple of s * (t * x): the composition is not compatible with the action", n)
     return n_ob
